@@ -530,6 +530,7 @@ func init() {
 			fr.i.permuteActive = false
 			return n
 		},
+		vr + "Gid": func(fr *frame, args []value) value { return fr.g.id },
 		vr + "Same": func(fr *frame, args []value) value {
 			a, b := args[0].(iface), args[1].(iface)
 			if !sameType(a.t, b.t) {
